@@ -92,7 +92,7 @@ theorem abandoned_increment_overcounts :
 /-- (The admissibility guard of the model's `endOp` event unfolded: the driver accepts the
 addresses a real operation returns only if they are in the caller's `got` list.)  Every
 address returned to a caller is in the caller's `got` list … -/
-theorem returned_is_recorded (s s' : St) (t : Nat) (addrs : List (Nat × Nat))
+theorem returned_is_recorded_partial (s s' : St) (t : Nat) (addrs : List (Nat × Nat))
     (h : step s (.endOp t addrs) = some s') : ∀ a ∈ addrs, a ∈ s.got t := by
   simp only [step] at h
   split at h
